@@ -1467,7 +1467,9 @@ fn process_path_renames(
                     let new_path = path.with_file_name(new_name);
                     let new_relative = new_path.strip_prefix(root).unwrap_or(&new_path);
 
-                    let kind = if path.is_dir() {
+                    // the entry's own type (lstat): a symlink to a directory is a file-like
+                    // entry, as in the case-aware planner; undo reverses kinds differently
+                    let kind = if entry.file_type().is_some_and(|t| t.is_dir()) {
                         if !options.rename_dirs {
                             continue;
                         }
